@@ -120,6 +120,7 @@ class Universe:
         self.callback_owner = {}  # callback field -> field naming its owner
         self.ghost_preds = set()  # predicates that mention ghost parameters
         self.local_types = {}   # 'Class.method' -> {local name: type tag}
+        self.method_hooks = {}  # 'Class.method' -> fn(it, self, args, kw, st, fr)
         self._iconsts = {}
 
     def field_tag(self, name):
@@ -504,8 +505,30 @@ class Interp(BuiltinsMixin, StmtMixin, DictMixin):
         return lst
 
     def ev_JoinedStr(self, node, st, fr):
-        # f-strings: only their length/content being *some* string matters
-        # for the supported properties; abstracted to a fresh string.
+        # f-strings made only of literal text and plain {expr} of string
+        # (or integer) value are exact concatenations ...
+        parts = []
+        for v in node.values:
+            if isinstance(v, ast.Constant) and isinstance(v.value, str):
+                parts.append(z3.StringVal(v.value))
+                continue
+            if isinstance(v, ast.FormattedValue) and v.conversion == -1 \
+                    and v.format_spec is None and \
+                    getattr(self.uni, "exact_fstrings", False):
+                try:
+                    x = self.ev(v.value, st, fr)
+                except Unsupported:
+                    parts = None
+                    break
+                if isinstance(x, VStr):
+                    parts.append(x.e)
+                    continue
+            parts = None
+            break
+        if parts:
+            return VStr(parts[0] if len(parts) == 1 else z3.Concat(*parts))
+        # ... anything else (messages of exceptions, mostly) is abstracted
+        # to a fresh string.
         self.uni.note_assumption(
             "f-string values are abstracted to arbitrary strings")
         return VStr(fresh("fstr", STR))
@@ -1153,10 +1176,23 @@ class Interp(BuiltinsMixin, StmtMixin, DictMixin):
             uni.repo.record(f"{rel}:{key}", rel, fn)
         # virtual dispatch: static class of receiver may have overriders
         recv_cls = selfv.cls if isinstance(selfv, VRef) else cname
+        hook = uni.method_hooks.get(key)
+        if hook is None and recv_cls and not static_dispatch:
+            for c in uni.repo.mro(recv_cls):
+                if f"{c}.{fn.name}" in uni.method_hooks:
+                    hook = uni.method_hooks[f"{c}.{fn.name}"]
+                    break
+        if hook is not None:
+            # assumed model of a repo method written as an engine hook
+            return hook(self, selfv, args, kwargs, st, fr)
         contract = uni.contracts.get(key)
         if contract is None and recv_cls and not static_dispatch:
             contract = uni.contract_for(recv_cls, fn.name)
         if contract is not None:
+            if getattr(contract, "call_hook", None) is not None:
+                # the callee's (separately verified) contract is used at
+                # call sites through an engine-level summary
+                return contract.call_hook(self, selfv, args, kwargs, st, fr)
             return self.call_by_contract(contract, fn, selfv, args, kwargs,
                                          st, fr)
         if key in uni.opaque:
